@@ -232,7 +232,8 @@ def hostile_pairs():
     pair(["sel"], "sel", ["_u"], "not _u")
     pair(["sel"], "sel", ["-d"], "not -d")
     pair(["sel"], "sel", ["4"], "not 4")
-    pair(["_s"], "1 of _*", ["flt"], "not flt")                     # D15
+    pair(["_s"], "1 of _*", ["flt"], "not flt")                     # D15 (same truth table here: (a or b) and not b)
+    pair(["_s"], "not 1 of _*", ["flt"], "flt")                     # D15 witness of C11_underscore_capture_refuted
     pair(["_s", "sel"], "sel and not 1 of _*", ["flt"], "flt")
     pair(["sel", "Not"], "sel", ["Not"], "Not")                     # keyword-named filter detection (capture)
     pair(["sel"], "sel", ["all"], "not all")
